@@ -107,6 +107,12 @@ func (f *RawMessageFilter) processConsensusMessage(message interfaces.ConsensusM
 		return
 	}
 
+	defer func() {
+		if r := recover(); r != nil { // malformed nested content (votes, proofs) surfaces only when it is read; also covers cached messages
+			f.logger.Info("LHFILTER LHMSG IGNORING MESSAGE THAT FAILED TO PARSE: %v", r)
+		}
+	}()
+
 	f.logger.Debug("received consensus message", log.Stringable("message-type", message.MessageType()), log.Stringable("sender", message.SenderMemberId()))
 	if err := f.consensusMessagesHandler.HandleConsensusMessage(message); err != nil {
 		f.logger.Info("LHFILTER LHMSG Failed in HandleConsensusMessage(): %s", err)
